@@ -142,8 +142,11 @@ func Run(r *vrt.R, scs []Scenario) {
 			// Capped scenario lists (C37: hundreds of scenarios, slow race build) share the budget fairly: each scenario
 			// gets an equal slice of what is left, unused time rolls over to the scenarios after it. Without this the
 			// scenarios at the end of the list got no execution at all once the budget was spent.
+			// The slices are cut from twice the tier's budget: on an unloaded machine the (deterministic) execution cap
+			// of a scenario binds first, so what is explored does not depend on the clock; the slice only keeps a
+			// heavily loaded machine from running away.
 			startOnce.Do(func() { deadline = budgetDeadline(r) })
-			if left := time.Until(deadline); left > 0 {
+			if left := time.Until(deadline.Add(deadline.Sub(started))); left > 0 {
 				scs[i].Cfg.Deadline = time.Now().Add(left / time.Duration(mine))
 			}
 		}
@@ -162,11 +165,12 @@ func budgetDeadline(r *vrt.R) time.Time {
 			b = time.Duration(n) * time.Second * 8 / 10
 		}
 	}
-	return time.Now().Add(b)
+	started = time.Now()
+	return started.Add(b)
 }
 
 var startOnce sync.Once
-var deadline time.Time
+var deadline, started time.Time
 
 func runScenario(r *vrt.R, sc *Scenario) {
 	startOnce.Do(func() { deadline = budgetDeadline(r) })
